@@ -24,6 +24,11 @@ MARKERS = [
 ]
 
 
+# the directive grid (deterministic; partitioned over exactly 8 shards by the low bits of the shard seed)
+GRID = [{"gen": "grid", "quick": "-depth 2 -n 8", "thorough": "-depth 3 -n 8", "shards": 8}]
+GRIDRULE = "; the DIRECTIVE GRID: every verb (24 incl. bad ones) x every subset of the flags '+-# 0' x 135 fixed operands (boundary values of every basic kind incl. surrogates and > MaxRune, floats with short hexadecimal mantissas, named/SafeValue/registered types, byte slices and arrays, containers incl. maps keyed by declared-safe string types, a registered struct by value and behind a pointer, wrappers nested both ways, pre-redactables, every scripted user kind by value / by pointer / as nil pointer, panicking methods) in a single-directive Sprintf with one of six width/precision settings (thorough: all six), and Sprint of ordered pairs of these operands (quick: a quarter, thorough: all)"
+
+
 def Q(name, quick_n, thorough_n, depth=2, shards=8, tdepth=3):
     return {"gen": name, "quick": "-depth %d -n %d" % (depth, quick_n), "thorough": "-depth %d -n %d" % (tdepth, thorough_n),
             "shards": shards}
@@ -34,16 +39,16 @@ PRINTRULE = "random printer cases from one seeded PRNG (sharded): entry points S
 
 PROPS = {
     "C01": {
-        "gens": BUF + LOW[1:] + [Q("q01", 9600, 80000)],
+        "gens": BUF + LOW[1:] + [Q("q01", 9600, 80000)] + GRID,
         "qtags": ["Q:C01", "Q:closure", "Q:C11"],
-        "rule": BUFRULE + "; EscapeBytes on all strings over the escape alphabet; " + PRINTRULE + "; Join/EscapeBytes results",
+        "rule": BUFRULE + "; EscapeBytes on all strings over the escape alphabet; " + PRINTRULE + "; Join/EscapeBytes results" + GRIDRULE,
         "exhaustive": True,
         "assumptions": ["raw (pre-redactable) writes are of well-formed, marker-closed fragments (hypothesis rawok of the theorems; enforced by the driver with the same extracted predicate)"],
     },
     "C02": {
-        "gens": [Q("q02", 9600, 80000)],
+        "gens": [Q("q02", 9600, 80000)] + GRID,
         "qtags": ["Q:C02", "Q:C11"],
-        "rule": "for each generated shape (format + operand tree), three instantiations of the leaves not declared safe (strings/byte slices: same rune count, line feeds at the same rune positions; integers: zero stays zero; floats, bools arbitrary; strings returned/written by user methods likewise; map keys, '*' operands, declared-safe values, literals shared): Redact() of the three outputs must be byte-identical; " + PRINTRULE,
+        "rule": "for each generated shape (format + operand tree), three instantiations of the leaves not declared safe (strings/byte slices: same rune count, line feeds at the same rune positions; integers: zero stays zero; floats, bools arbitrary; strings returned/written by user methods likewise; map keys, '*' operands, declared-safe values, literals shared): Redact() of the three outputs must be byte-identical; " + PRINTRULE + GRIDRULE,
         "assumptions": ["the instantiation relation is the reading of 'same shape, same emptiness, same line-break positions' given in DESIGN.md"],
     },
     "C03": {
@@ -54,21 +59,21 @@ PROPS = {
         "assumptions": ["raw writes are line-safe fragments (rawok)"],
     },
     "C04": {
-        "gens": [Q("q04", 12800, 100000)],
+        "gens": [Q("q04", 12800, 100000)] + GRID,
         "qtags": ["Q:C04", "Q:C11"],
-        "rule": "fmt-compatible cases (valid UTF-8; no redact-specific types; no %w; no '0' with '-'): StripMarkers(redact.Sprint/Sprintf/Fprint/Fprintf) = fmt.Sprint/Sprintf with markers replaced by '?', and the two panic together; Stringer/error/Formatter/GoStringer scripts incl. panicking and nil receivers; " + PRINTRULE,
+        "rule": "fmt-compatible cases (valid UTF-8; no redact-specific types; no %w; no '0' with '-'): StripMarkers(redact.Sprint/Sprintf/Fprint/Fprintf) = fmt.Sprint/Sprintf with markers replaced by '?', and the two panic together; Stringer/error/Formatter/GoStringer scripts incl. panicking and nil receivers; " + PRINTRULE + GRIDRULE,
         "assumptions": ["reference = the standard fmt of the installed toolchain (go1.23)"],
     },
     "C05": {
-        "gens": [Q("q05", 12800, 100000)],
+        "gens": [Q("q05", 12800, 100000)] + GRID,
         "qtags": ["Q:C05", "Q:C11"],
-        "rule": "formats with verbs valid for their operands, flags, width, precision; operands mixing declared-safe leaves (SafeValue types, registered types in the configurations that register them, Safe()-wrapped) and unsafe leaves at top level and inside []interface{}, [2]interface{} and exported interface struct fields; reference text = fmt.Sprintf on the same tree in which every unsafe leaf is replaced by a Formatter that prints only the line feeds of the leaf's rendering under the active directive; both registry configurations",
+        "rule": "formats with verbs valid for their operands, flags, width, precision; operands mixing declared-safe leaves (SafeValue types, registered types in the configurations that register them, Safe()-wrapped) and unsafe leaves at top level and inside []interface{}, [2]interface{} and exported interface struct fields; reference text = fmt.Sprintf on the same tree in which every unsafe leaf is replaced by a Formatter that prints only the line feeds of the leaf's rendering under the active directive; both registry configurations" + GRIDRULE,
         "assumptions": ["map keys cannot be blanked in the reference (string-typed keys) and are exercised by the correspondence only"],
     },
     "C06": {
-        "gens": [Q("q06", 12800, 100000)],
+        "gens": [Q("q06", 12800, 100000)] + GRID,
         "qtags": ["Q:C06", "Q:C11"],
-        "rule": "x from the full value zoo incl. user methods that call back through Print/Printf/Safe*/Unsafe*/Write, error hook on/off, registry on/off, every verb and flag subset; wrappers nested up to depth 3; Unsafe(x): nothing but line feeds outside envelopes; Safe(x) for x without own classification: no envelope; characters = fmt's for fmt-compatible x",
+        "rule": "x from the full value zoo incl. user methods that call back through Print/Printf/Safe*/Unsafe*/Write, error hook on/off, registry on/off, every verb and flag subset; wrappers nested up to depth 3; Unsafe(x): nothing but line feeds outside envelopes; Safe(x) for x without own classification: no envelope; characters = fmt's for fmt-compatible x" + GRIDRULE,
     },
     "C07": {
         "gens": MARKERS,
@@ -95,9 +100,9 @@ PROPS = {
         "assumptions": ["regexp engine semantics for [‹›] modelled at token level (validated here)"],
     },
     "C11": {
-        "gens": [Q("q11", 6400, 60000)] + BUFINV + [Q("printer", 6400, 60000)],
+        "gens": [Q("q11", 6400, 60000)] + BUFINV + [Q("printer", 6400, 60000)] + GRID,
         "qtags": ["Q:C11"],
-        "rule": "every rune class (negative, surrogates incl. both ends, > MaxRune, boundaries) and all 256 bytes through SafeRune/UnsafeRune/SafeByte/UnsafeByte/WriteRune/WriteByte on StringBuilder, SafePrinter and ManualBuffer in 5 buffer states; JoinTo with 14 non-slice/nil/typed-nil/slice operands; user methods made to panic at every position of their script (plain and nested payloads), at top level and inside slices/structs, with and without hook: text before and after intact; ManualBuffer histories with invalid runes (state compared with the model); " + PRINTRULE,
+        "rule": "every rune class (negative, surrogates incl. both ends, > MaxRune, boundaries) and all 256 bytes through SafeRune/UnsafeRune/SafeByte/UnsafeByte/WriteRune/WriteByte on StringBuilder, SafePrinter and ManualBuffer in 5 buffer states; JoinTo with 14 non-slice/nil/typed-nil/slice operands; user methods made to panic at every position of their script (plain and nested payloads), at top level and inside slices/structs, with and without hook: text before and after intact; ManualBuffer histories with invalid runes (state compared with the model); " + PRINTRULE + GRIDRULE,
         "assumptions": ["Grow(n<0) and memory exhaustion are outside the claim", "a panic raised while a panic payload is printed, or by the Sprintfn callback itself, propagates (as in fmt)"],
     },
     "C12": {
